@@ -348,6 +348,10 @@ func runC16(c *Ctx) {
 	// ---- R16.6
 	c.rule("R16.7", "a reverse call made while the connection goes away fails instead of blocking: the hand-over to the connection loop is a rendezvous (unbuffered queue), so no request is left in a buffer that nobody drains")
 	c.unbufferedQueue("R16.7")
+	c.rule("R16.9", "a reverse call or notification picked up while the connection is going away is answered, not dropped: the accept arm is total for both id polarities")
+	c.acceptArmRule("R16.9")
+	c.rule("R16.8", "nested calls complete: the frame executor (which delivers the responses of reverse calls) never blocks on something only a finishing handler releases")
+	c.executorNeverWaitsForHandlers("R16.8")
 	c.rule("R16.6", "a reverse call fails once the client is gone also when it is retry-tagged: re-sends only on the wire's temporary-connection code")
 	c.retryGateRule("R16.6")
 
